@@ -64,12 +64,24 @@ func (w *World) leavesX(v ssa.Value, at ssa.Instruction, deep, expandErr bool) [
 		base = copyFacts(w.factsOf(at.Parent()).in[at.Block()])
 	}
 	busy := map[*ssa.Function]bool{}
+	callOf := map[*ssa.Function]*ssa.Call{} // the call through which a helper's returns are being looked at
 	var out []Leaf
 	seen := map[ssa.Value]bool{}
 	var rec func(v ssa.Value, facts map[Lit]bool, user ssa.Instruction)
 	rec = func(v ssa.Value, facts map[Lit]bool, user ssa.Instruction) {
 		v = strip(v)
 		switch x := v.(type) {
+		case *ssa.Parameter:
+			// a helper handing back one of its parameters (log-and-return): the argument of the call being looked through
+			if c := callOf[x.Parent()]; c != nil {
+				if i := paramIndex(x); i >= 0 && i < len(c.Call.Args) {
+					saved := callOf[x.Parent()]
+					delete(callOf, x.Parent())
+					rec(c.Call.Args[i], facts, c)
+					callOf[x.Parent()] = saved
+					return
+				}
+			}
 		case *ssa.Phi:
 			if seen[x] {
 				return
@@ -132,6 +144,8 @@ func (w *World) leavesX(v ssa.Value, at ssa.Instruction, deep, expandErr bool) [
 				}
 				if len(rets) > 0 {
 					busy[h] = true
+					callOf[h] = c
+					defer delete(callOf, h)
 					for _, r := range rets {
 						if idx >= len(r.Results) {
 							continue
